@@ -173,7 +173,7 @@ class Slot:
         fl.append({"checked": "-DSBEPP_ENABLE_ASSERTS_WITH_HANDLER", "unchecked": "-DSBEPP_DISABLE_ASSERTS"}[mode])
         return fl + list(extra)
 
-    def lower(self, name, cpp_text, std="17", mode="unchecked", incs=(), exceptions=False, extra=(), extern_map=None):
+    def lower(self, name, cpp_text, std="17", mode="unchecked", incs=(), exceptions=False, extra=(), extern_map=None, allow_opaque=False):
         """wrapper TU -> IR -> C.  returns dict(c=path, h=path, cpp=path, info=..., inlined=[...])"""
         flags = self.lower_flags(std, mode, exceptions, list(extra) + ["-I" + i for i in incs])
         key = hashlib.sha256((cpp_text + "\0" + " ".join(flags) + json.dumps(extern_map or {}, sort_keys=True) + engine_hash()).encode()).hexdigest()[:16]
@@ -193,6 +193,8 @@ class Slot:
             c, h, info = ir2c.translate(open(ll).read(), extern_map)
         except ir2c.Err as e:
             return {"error": "ir2c: %s" % e, "cpp": cpp, "flags": flags}
+        if info.get("opaque_globals") and not allow_opaque:
+            return {"error": "ir2c: global(s) with an initializer the translator cannot encode: %s" % info["opaque_globals"], "cpp": cpp, "flags": flags}
         cp, hp = os.path.join(base, "w.c"), os.path.join(base, "w.h")
         open(cp, "w").write(c); open(hp, "w").write(h)
         d = {"c": cp, "h": hp, "cpp": cpp, "ll": ll, "dir": base, "info": info, "inlined": inlined, "flags": flags, "std": std, "mode": mode,
